@@ -44,10 +44,10 @@ Proof.
   destruct (zlookup c (s_conns s)); inversion H; subst; [apply keeps_set_conn | apply keeps_refl].
 Qed.
 
-Lemma normal_command_keeps now s c dbi parts oracle r s' :
-  normal_command now s c dbi parts oracle = (r, s') -> keeps s s'.
+Lemma dispatch_command_keeps now s c dbi parts oracle r s' :
+  dispatch_command now s c dbi parts oracle = (r, s') -> keeps s s'.
 Proof.
-  unfold normal_command. intros H.
+  unfold dispatch_command. intros H.
   destruct parts as [|first rest]; [kdone H|].
   destruct first; try kdone H.
   set (s0 := if mem_name (upper b) write_commands then log_aof_in s dbi (FBulk b :: rest) else s) in *.
@@ -70,6 +70,20 @@ Proof.
   destruct (exec_db now (get_db s0 dbi) (upper b) (FBulk b :: rest) oracle) as [[r0 d']|];
     inversion H; subst; [|apply keeps_refl].
   eapply keeps_trans; [apply keeps_set_db | apply keeps_set_trk].
+Qed.
+Lemma lazy_expire_keeps now s dbi name parts : keeps s (lazy_expire now s dbi name parts).
+Proof.
+  unfold lazy_expire. destruct lazy_expiry_before_dispatch; [|apply keeps_refl].
+  destruct (expire_before now (get_db s dbi) name parts) as [d1 removed].
+  eapply keeps_trans; [apply keeps_set_db | apply keeps_set_trk].
+Qed.
+Lemma normal_command_keeps now s c dbi parts oracle r s' :
+  normal_command now s c dbi parts oracle = (r, s') -> keeps s s'.
+Proof.
+  unfold normal_command. intros H.
+  destruct parts as [|first rest]; [kdone H|].
+  destruct first; try kdone H.
+  eapply keeps_trans; [apply lazy_expire_keeps | eapply dispatch_command_keeps; exact H].
 Qed.
 
 Lemma exec_queue_keeps now dbi : forall q s acc reps s',
